@@ -246,7 +246,7 @@ DecodingTable *DecodingTable::load(std::istream &in) {
   for (uint i = 0; i < table->nodes; i++)
     table->subtrees[i] = DecodingTree::load(in);
 
-  for (uint i = 0; i < 255; i++) {
+  for (uint i = 0; i < 256; i++) {
     table->ventry[i].length = ((i & 240) >> 4);
     table->ventry[i].bits = ((i & 15) + 1);
     ;
